@@ -1050,10 +1050,21 @@ def run_eol_scenario(idx, sc):
         p = os.path.join(root, "eol.pas")
         with open(p, "wb") as fh:
             fh.write(canon)
-        rc, out, err = run_bin(args + [p], root)
         exp = oracle(canon, args)[1]
-        now = open(p, "rb").read()
         what = f"file terminators={sc['file_eol']} line_ending={sc['option']} text={sc['text'][:60]!r}"
+        # the other two routes first (they leave the file alone): stdout mode prints the block `path:<LF>text<LF>` whose text
+        # has the configured terminators, check mode says whether files mode would change the file
+        rcs, outs, errs = run_bin(args + ["--mode", "stdout", p], root)
+        if rcs == 0 and outs != p.encode() + b":\n" + exp + b"\n":
+            body = outs[len(p) + 2:]
+            problems.append({"clause": "configured_ending_everywhere", "detail": f"--mode stdout printed a text with {body.count(bytes([13, 10]))} CRLF / {body.count(bytes([10]))} LF, stdin->stdout gives {exp.count(bytes([13, 10]))} CRLF / {exp.count(bytes([10]))} LF ({what})"})
+        rcc, outc, errc = run_bin(args + ["--mode", "check", p], root)
+        if open(p, "rb").read() != canon:
+            problems.append({"clause": "configured_ending_everywhere", "detail": f"the file changed in stdout / check mode ({what})"})
+        elif (rcc != 0) != (exp != canon):
+            problems.append({"clause": "configured_ending_everywhere", "detail": f"--mode check exits {rcc} but the configured terminators {'differ from' if exp != canon else 'are'} those of the file ({what})"})
+        rc, out, err = run_bin(args + [p], root)
+        now = open(p, "rb").read()
         if rc != 0:
             return [], True
         if now != exp:
